@@ -325,6 +325,92 @@ def reflect_contexts(ir, wr):
     return rows
 
 
+
+# ---------------------------------------------------------------------------------------------- two-level contexts
+# ((x op1 c1) op2 c2) and (c1 op1 (x op2 c2)): what register propagation leaves when both constants come from registers.
+# A Writer that rewrites such a nest (folding, re-association) changes the lexeme template or the literals of a row.
+OPS2_I = ["+", "-", "*", "&", "|", "^", "<<", ">>", ">>>"]
+OPS2_J = ["+", "-", "*", "&"]
+PAIR_I = [0x7FFFFFFF, -0x80000000, 1 << 30, -(1 << 30), -0x7FFFFFFF, 1, -1, 0, 1500000000, -1500000000]
+PAIR_J = [(1 << 63) - 1, -(1 << 63), 1 << 62, -(1 << 62), -(1 << 63) + 1, 1, -1, 0, 1 << 31, 6000000000000000000]
+
+
+def context2_specs():
+    specs = []
+    for shape in ("A", "B"):
+        specs += [(shape, o1, o2, "I") for o1 in OPS2_I for o2 in OPS2_I]
+        specs += [(shape, o1, o2, "J") for o1 in OPS2_J for o2 in OPS2_J]
+    return specs
+
+
+def pairs_of(ty):
+    base = PAIR_I if ty == "I" else PAIR_J
+    return [(a, b) for a in base for b in base]
+
+
+def build_context2(ir, spec, c1, c2):
+    shape, o1, o2, ty = spec
+
+    def var(n=1):
+        x = ir.Variable(n)
+        x.type = ty
+        x.declared = True
+        return x
+    if shape == "A":      # ((x o1 c1) o2 c2)
+        inner = ir.BinaryExpression(o1, var(), ir.Constant(c1, ty), ty)
+        outer = ir.BinaryExpression(o2, var(7), ir.Constant(c2, ty), ty)
+        outer.var_map[outer.arg1] = inner          # as register propagation leaves it
+        return outer
+    inner = ir.BinaryExpression(o2, var(), ir.Constant(c2, ty), ty)       # (c1 o1 (x o2 c2))
+    outer = ir.BinaryExpression(o1, ir.Constant(c1, ty), var(7), ty)
+    outer.var_map[outer.arg2] = inner
+    return outer
+
+
+def context2_text(ir, wr, spec, c1, c2):
+    w = wr.Writer(None, None)
+    build_context2(ir, spec, c1, c2).visit(w)
+    return str(w)
+
+
+def abstract_literals(text, n):
+    """(template with '#', kinds joined by ',', [values]) for a text that must contain exactly n literals"""
+    toks = java_lex(text)
+    if toks is None:
+        return (["<not-java>", text], "bad", [0] * n)
+    lits = [(k, t) for k, t in toks if k in ("num", "chr")]
+    if len(lits) != n:
+        return (["<literals:%d>" % len(lits)] + [("#" if kk in ("num", "chr") else tt) for kk, tt in toks], "bad", [0] * n)
+    kinds, vals = [], []
+    for k, t in lits:
+        if k == "chr":
+            kinds.append("char"); vals.append(ord(t[1]) if len(t) == 3 else -1)
+        else:
+            kinds.append("long" if t.endswith("L") else "int"); vals.append(int(t.rstrip("L")))
+    return ([("#" if kk in ("num", "chr") else tt) for kk, tt in toks], ",".join(kinds), vals)
+
+
+def reflect_contexts2(ir, wr):
+    """rows: (shape, op1, op2, ty, template, kinds, [(c1, c2)], [(l1, l2)]) — one per distinct (template, kinds) of a context"""
+    rows = []
+    for spec in context2_specs():
+        groups, order = {}, []
+        for c1, c2 in pairs_of(spec[3]):
+            try:
+                tpl, kinds, vals = abstract_literals(context2_text(ir, wr, spec, c1, c2), 2)
+            except Exception as e:  # noqa
+                tpl, kinds, vals = (["<raised:%s>" % type(e).__name__], "bad", [0, 0])
+            key = (tuple(tpl), kinds)
+            if key not in groups:
+                groups[key] = ([], [])
+                order.append(key)
+            groups[key][0].append((c1, c2))
+            groups[key][1].append((vals[0], vals[1]))
+        for key in order:
+            rows.append(spec + (list(key[0]), key[1], groups[key][0], groups[key][1]))
+    return rows
+
+
 def generate(repo):
     dex, oi, ir, wr = _load(repo)
     try:
@@ -418,6 +504,24 @@ def generate(repo):
         crow.append("  ⟨%s, %s, %s, [%s], %s, %s, %s⟩" % (lean_str(fam), lean_str(op_), lean_str(aux),
                                                          ", ".join(lean_str(t) for t in tpl), lean_str(kind), enc(vs), enc(ls)))
     out.append(",\n".join(crow) + "]")
+    clampo = lambda v: max(-OFFSET, min(OFFSET - 1, v)) + OFFSET
+    encp = lambda ps: "[" + ", ".join("(%d, %d)" % (clampo(a), clampo(b)) for a, b in ps) + "]"
+    out += ["", "/-- the constant pairs of the two-level contexts (offset by 2^63) -/",
+            "def pairsI : List (Nat × Nat) := " + encp(pairs_of("I")), "def pairsJ : List (Nat × Nat) := " + encp(pairs_of("J")), "",
+            "/-- a two-level context ((x op1 c1) op2 c2) [shape A] / (c1 op1 (x op2 c2)) [shape B] as the real Writer prints it:",
+            "    lexeme template, kinds of the two literals, the constant pairs printed this way and what the two literals denote",
+            "    (a list equal to `pairsI`/`pairsJ` is written as that name) -/",
+            "structure Ctx2Row where", "  shape : String", "  op1 : String", "  op2 : String", "  ty : String",
+            "  template : List String", "  kinds : String", "  vals : List (Nat × Nat)", "  lits : List (Nat × Nat)", "",
+            "def ctx2Rows : List Ctx2Row := ["]
+    c2 = []
+    for shape, o1, o2, ty, tpl, kinds, vs, ls in reflect_contexts2(ir, wr):
+        full = pairs_of(ty)
+        name = "pairsI" if ty == "I" else "pairsJ"
+        c2.append("  ⟨%s, %s, %s, %s, [%s], %s, %s, %s⟩" % (
+            lean_str(shape), lean_str(o1), lean_str(o2), lean_str(ty), ", ".join(lean_str(t) for t in tpl), lean_str(kinds),
+            name if vs == full else encp(vs), name if ls == full else encp(ls)))
+    out.append(",\n".join(c2) + "]")
     out += ["", "end AgVerif.Gen.Translate", ""]
     return {"Translate": "\n".join(out)}
 
